@@ -507,6 +507,9 @@ def register_edits(B, ctx, edits, asm_hook=None):
         so = next(y for y in B.m.symbols if y.name == old_name)
         sn = next(y for y in B.m.symbols if y.name == new_name)
         ctx.retarget_symbol_uses(so, sn)
+    # delete_symbol(sym, force), by name; a symbol may be asked for more than once
+    for name, force in (B.case.get("symbol_deletions") or []) if getattr(B, "case", None) else []:
+        ctx.delete_symbol(next(y for y in B.m.symbols if y.name == name), force=bool(force))
 
 
 def run_case(case, record=True, on_op=None):
